@@ -23,11 +23,11 @@ static void family(const struct vp_in *in)
     VP_ASSUME(vp_desc_wellformed(&in->t));
     VP_ASSUME(in->t.nareas >= 1);
     for (unsigned i = 0; i < NAREA; ++i) {
-        VP_ASSUME(in->t.a[i].base <= 0x7fffff00u); /* no 2^32 wrap (outside the claim) */
+        VP_ASSUME(in->t.a[i].base <= VP_ADDR_LIMIT); /* no 2^32 wrap (outside the claim) */
         VP_ASSUME(in->t.a[i].has_read == 1);       /* typed get needs a read path */
     }
     for (unsigned i = 0; i < NREG; ++i)
-        VP_ASSUME(in->t.e[i].address <= 0x7fffff00u);
+        VP_ASSUME(in->t.e[i].address <= VP_ADDR_LIMIT);
     VP_ASSUME(in->vtype <= REG_TYPE_INVALID);
     VP_ASSUME(in->unsafe <= 1);
 #ifdef TTYPE
